@@ -12,6 +12,7 @@ import (
 	"crypto/sha512"
 	"fmt"
 	"hash"
+	"runtime"
 	"sort"
 	"strings"
 	"time"
@@ -33,6 +34,7 @@ type verifJobResult struct {
 	Panic        string            `json:"panic"`
 	Observes     map[string]string `json:"observes"`
 	Asserts      int               `json:"asserts"`
+	AssumeSite   string            `json:"assume_site"`
 }
 
 type verifHmacRec struct {
@@ -200,6 +202,9 @@ func verifString(name string, n int) string { return string(verifBytes(name, n))
 
 func verifAssume(c bool) {
 	if !c {
+		_, file, line, _ := runtime.Caller(1)
+		verifRes.Panic = ""
+		verifRes.AssumeSite = fmt.Sprintf("%s:%d", file, line)
 		panic(verifAssumeFailed{})
 	}
 }
@@ -339,11 +344,22 @@ var verifRandStreams [][]byte
 
 func (verifRandReader) Read(p []byte) (int, error) {
 	verifRandCount++
-	for i := range p {
-		p[i] = byte(verifNext(fmt.Sprintf("rand_%d", i)))
+	n := len(p)
+	// a model with rand_n comes from a run in which the code called Reader.Read directly: the
+	// substituted stream then delivers a short read, as io.Reader allows
+	if _, ok := verifCur.Vars["rand_n"]; ok && len(p) > 0 {
+		if k := int(verifNext("rand_n")); k >= 1 && k < n {
+			n = k
+		}
 	}
-	verifRandStreams = append(verifRandStreams, append([]byte{}, p...))
-	return len(p), nil
+	for i := 0; i < len(p); i++ {
+		b := byte(verifNext(fmt.Sprintf("rand_%d", i)))
+		if i < n {
+			p[i] = b
+		}
+	}
+	verifRandStreams = append(verifRandStreams, append([]byte{}, p[:n]...))
+	return n, nil
 }
 
 func verifRandStream(i int) []byte { return verifRandStreams[i] }
